@@ -56,6 +56,10 @@ def gen(rng, tier):
         if p.get(100, 3) >= 13 or p.get(107, 0) >= 7:
             size = min(size, 50000)
         L.append("SP pp %s %d %d %d %s" % (rng.choice(KINDS), size, rng.randint(1, 9999), stream, " ".join("%d:%d" % kv for kv in sorted(p.items()))))
+    # directed: a level whose small-source tier selects a costlier strategy than its unknown-size tier, with a table log pinned small
+    for lvl, extra in ((12, "102:6"), (12, "102:6 105:3"), (11, "102:6"), (10, "102:6 103:6"), (9, "102:6")):
+        for size in (70000, 100000, 15000):
+            L.append("SP pp %s %d %d %d 100:%d %s" % (rng.choice(KINDS), size, rng.randint(1, 9999), rng.choice([0, 1]), lvl, extra))
     # decoders
     for W in [1024, 4096, 16384, 131072, 1 << 20]:
         wl = W.bit_length() - 1
